@@ -98,7 +98,7 @@ def corresponding_codes(failed):
 # ---------------------------------------------------------------------------
 # value_np / value_ro: a characteristic whose declared PROPERTIES do not advertise the operation (notify-only / read-only):
 # the properties octet is advice for the peer, the permissions decide
-PLACEMENTS = ('value', 'value_dyn', 'value_long', 'descriptor', 'alone', 'first', 'middle', 'last', 'group', 'value_np', 'value_ro')
+PLACEMENTS = ('value', 'value_dyn', 'value_long', 'descriptor', 'alone', 'first', 'middle', 'last', 'group', 'value_np', 'value_ro', 'descriptor_cccd')
 
 
 def hexv(b):
@@ -114,6 +114,10 @@ def placement_spec(pl, perms):
         return [['svc', 'A000', True, [pub(0), ['A001', P_N if pl == 'value_np' else P_R, perms, hexv(SECRET7), []], pub(2)]]]
     if pl == 'descriptor':
         return [['svc', 'A000', True, [pub(0), ['A0F1', P_R | P_W, RWP, hexv(PUB[1]), [['A0D1', perms, hexv(SECRET7)]]], pub(2)]]]
+    if pl == 'descriptor_cccd':
+        # an application-supplied Client Characteristic Configuration descriptor (static value, its own requirement
+        # bits: HID-style) on a characteristic that notifies: it is an attribute like any other
+        return [['svc', 'A000', True, [pub(0), ['A0F1', P_R | P_W | P_N, RWP, hexv(PUB[1]), [['2902', perms, hexv(SECRET7)]]], pub(2)]]]
     if pl == 'alone':
         return [['svc', 'A000', True, [['A001', P_R | P_W, perms, hexv(SECRET7), []]]]]
     if pl in ('first', 'middle', 'last'):
@@ -132,6 +136,8 @@ U128B = '1112131415161718191a1b1c1d1e1f20'
 def find_target(db, pl):
     if pl == 'descriptor':
         return next(r for r in db.rows if r['type'] == A.uuid_bytes('A0D1'))
+    if pl == 'descriptor_cccd':
+        return next(r for r in db.rows if r['type'] == A.uuid_bytes('2902'))
     if pl == 'group':
         return next(r for r in db.rows if r['role'] == 'raw')
     if pl in ('first', 'middle', 'last'):
@@ -199,6 +205,9 @@ def write_forms(db, pl, t):
         ('write_request', 'value', A.req_write(h, NEWVAL), True),
         ('write_request', 'empty', A.req_write(h, b''), True),
         ('write_request', 'same_length', A.req_write(h, bytes(len(secret_of(pl)))), True),
+        # the bytes the attribute already holds: a refusal must not depend on what is written (no value oracle)
+        ('write_request', 'current_value', A.req_write(h, secret_of(pl)[:MTU - 3]), True),
+        ('write_command', 'current_value', A.req_write(h, secret_of(pl)[:MTU - 3], 0x52), False),
         ('write_command', 'value', A.req_write(h, NEWVAL, 0x52), False),
         ('write_command', 'empty', A.req_write(h, b'', 0x52), False),
         ('signed_write_command', 'value', A.req_write(h, NEWVAL + bytes(12), 0xD2), False),
@@ -553,9 +562,9 @@ def run(ctx: core.Context) -> int:
         LEVEL,
         rule=(
             'lattice: target permissions = '
-            + ('all 256 flag combinations for the characteristic-value and descriptor placements, the 32-set lattice (R/W x {none, each requirement bit, all six}) for the other 7 placements' if quick else 'all 256 flag combinations for all 9 placements')
+            + ('all 256 flag combinations for the characteristic-value and descriptor placements, the 32-set lattice (R/W x {none, each requirement bit, all six}) for the other placements' if quick else 'all 256 flag combinations for every placement') + f' ({len(PLACEMENTS)} placements incl. an application-supplied static CCCD with requirement bits)'
             + f'; x link states {states} x bearers {bearers} x every read form (read, read blob x4 offsets, read by type x5 ranges/forms, read multiple and variable x5 positions, read by group type x4, find by type value x3) '
-            'and write form (write request x3, write command x2, signed write, prepare+execute). distinct = (path, form, #unmet requirements, outcome, error code). '
+            'and write form (write request x4 incl. the bytes the attribute already holds, write command x3, signed write, prepare+execute). distinct = (path, form, #unmet requirements, outcome, error code). '
             'concurrent: two links with different security (encrypted+authenticated / plain) asking for one attribute with an asynchronous application callback held open, both orders x every pair of access paths x each requirement bit; run-time assignment of permissions (tighten / loosen) on three placements. builtin: every constructor-made attribute (service/include/characteristic declarations, value, user descriptor, CCCD) x write request/command x read.'
         ),
         assumptions=[
